@@ -154,8 +154,13 @@ func canonDesc(kind, desc string) string {
 	return strings.TrimSpace(reThread.ReplaceAllString(desc, ""))
 }
 
-func runWorkerProc(args ...string) (string, string, error) {
-	exe, _ := os.Executable()
+func runWorkerProc(args ...string) (string, string, error) { return runWorkerBin("", args...) }
+
+// runWorkerBin runs a worker of the given binary ("" = this binary).
+func runWorkerBin(exe string, args ...string) (string, string, error) {
+	if exe == "" {
+		exe, _ = os.Executable()
+	}
 	cmd := exec.Command(exe, append([]string{"worker"}, args...)...)
 	var so, se strings.Builder
 	cmd.Stdout = &so
